@@ -100,7 +100,7 @@ def _extract_arm(arm):
         j = i
         while j < len(region_m) and not (region_m[j] == "," and depth_at[j] == 0):
             j += 1
-        body = "{ " + src[ob + 1 + i: ob + 1 + j] + "; }"
+        body = "{ " + src[ob + 1 + i: ob + 1 + j] + ("" if arm.get("value") else ";") + " }"
     line = src.count("\n", 0, ob + 1 + hit.start()) + 1
     return body, line
 
